@@ -47,14 +47,14 @@ namespace chip
 	/****************************************/
 	sample** LinearResampler::interpolate(sample** src, size_t nSamples, size_t intrSize)
 	{
-		(void)intrSize;
 		// Linear interplation
 		for (int pan = LEFT; pan <= RIGHT; ++pan) {
 			for (size_t n = 0; n < nSamples; ++n) {
 				float curnf = n * rateRatio_;
 				int curni = static_cast<int>(curnf);
 				float sub = curnf - curni;
-				if (sub) {
+				// the last source sample has no right neighbour (down-sampling ratios below 1 reach it)
+				if (sub && static_cast<size_t>(curni) + 1 < intrSize) {
 					destBuf_[pan][n] = static_cast<sample>(src[pan][curni] + (src[pan][curni + 1] - src[pan][curni]) * sub);
 				}
 				else /* if (sub == 0) */ {
